@@ -134,44 +134,48 @@ def audit_sources(vfiles):
     return probs
 
 
-def coq_obligations(pid, extra_targets=(), timeout=3000):
-    """Build Properties/<pid>.vo (+ extraction), audit. Returns dict."""
-    prop_v = "Properties/%s.v" % pid
-    targets = ["Properties/%s.vo" % pid] + list(extra_targets)
+def coq_obligations(pid, extra_targets=(), timeout=3000, more_props=()):
+    """Build Properties/<pid>.vo (+ further property files `more_props`, + extraction), audit. Returns dict."""
+    props = [pid] + list(more_props)
+    targets = ["Properties/%s.vo" % q for q in props] + list(extra_targets)
     rc, out, dt = sh([sys.executable, os.path.join(COQ, "build.py"), "-j", "16", "--timeout", str(timeout)] + targets,
                      cwd=COQ, timeout=timeout + 60)
     res = {"build_ok": rc == 0, "build_log": out[-3000:], "build_s": round(dt, 1)}
-    src = strip_comments(open(os.path.join(COQ, prop_v)).read())
-    thms = re.findall(r"^\s*(?:Theorem|Lemma|Corollary|Example|Fact|Remark|Proposition)\s+([A-Za-z0-9_']+)", src, re.M)
-    prints = re.findall(r"Print\s+Assumptions\s+([A-Za-z0-9_'.]+)\s*\.", src)
-    res["theorems"] = thms
-    res["obligations"] = len(thms)
     problems = []
     files = coq_deps_closure(targets)
     res["files"] = files
     problems += audit_sources(files)
-    # every `Theorem Cxx_*` must be followed by a Print Assumptions
-    missing = [t for t in thms if t.startswith(pid + "_") and t not in prints and not re.search(
-        r"Example\s+" + re.escape(t) + r"\b", src)]
-    if missing:
-        problems.append("theorems without Print Assumptions: " + ", ".join(missing))
-    axioms = {}
+    all_thms, axioms = [], {}
+    for q in props:
+        prop_v = "Properties/%s.v" % q
+        src = strip_comments(open(os.path.join(COQ, prop_v)).read())
+        thms = re.findall(r"^\s*(?:Theorem|Lemma|Corollary|Example|Fact|Remark|Proposition)\s+([A-Za-z0-9_']+)", src, re.M)
+        prints = re.findall(r"Print\s+Assumptions\s+([A-Za-z0-9_'.]+)\s*\.", src)
+        all_thms += thms
+        # every `Theorem Cxx_*` must be followed by a Print Assumptions
+        missing = [t for t in thms if t.startswith(pid + "_") and t not in prints and not re.search(
+            r"Example\s+" + re.escape(t) + r"\b", src)]
+        if missing:
+            problems.append("theorems without Print Assumptions in %s: %s" % (prop_v, ", ".join(missing)))
+        if rc == 0:
+            lp = os.path.join(COQ, ".logs", "Properties.%s.out" % q)
+            txt = open(lp).read() if os.path.exists(lp) else ""
+            blocks = re.split(r"(?=Closed under the global context|Axioms:)", txt)
+            blocks = [b for b in blocks if b.startswith("Closed under") or b.startswith("Axioms:")]
+            if len(blocks) != len(prints):
+                problems.append("%s: Print Assumptions output count %d != commands %d" % (prop_v, len(blocks), len(prints)))
+            for name, b in zip(prints, blocks):
+                if b.startswith("Closed under"):
+                    continue
+                ax = re.findall(r"^([A-Za-z0-9_'.]+)\s*:", b[len("Axioms:"):], re.M)
+                axioms[name] = ax
+                for a in ax:
+                    if a not in AXIOM_ALLOW:
+                        problems.append("theorem %s depends on axiom %s (not in allowlist)" % (name, a))
+    res["theorems"] = all_thms
+    res["obligations"] = len(all_thms)
     if rc == 0:
-        lp = os.path.join(COQ, ".logs", "Properties.%s.out" % pid)
-        txt = open(lp).read() if os.path.exists(lp) else ""
-        blocks = re.split(r"(?=Closed under the global context|Axioms:)", txt)
-        blocks = [b for b in blocks if b.startswith("Closed under") or b.startswith("Axioms:")]
-        if len(blocks) != len(prints):
-            problems.append("Print Assumptions output count %d != commands %d" % (len(blocks), len(prints)))
-        for name, b in zip(prints, blocks):
-            if b.startswith("Closed under"):
-                continue
-            ax = re.findall(r"^([A-Za-z0-9_'.]+)\s*:", b[len("Axioms:"):], re.M)
-            axioms[name] = ax
-            for a in ax:
-                if a not in AXIOM_ALLOW:
-                    problems.append("theorem %s depends on axiom %s (not in allowlist)" % (name, a))
-        res["discharged"] = len(thms)
+        res["discharged"] = len(all_thms)
     else:
         res["discharged"] = 0
         problems.append("coq build failed for %s" % " ".join(targets))
@@ -181,8 +185,9 @@ def coq_obligations(pid, extra_targets=(), timeout=3000):
     return res
 
 
-def coqchk(pid, timeout=1500):
-    rc, out, dt = sh(["coqchk", "-silent", "-o", "-Q", ".", "Yui", "Yui.Properties.%s" % pid], cwd=COQ, timeout=timeout)
+def coqchk(pid, timeout=1500, more_props=()):
+    mods = ["Yui.Properties.%s" % q for q in [pid] + list(more_props)]
+    rc, out, dt = sh(["coqchk", "-silent", "-o", "-Q", ".", "Yui"] + mods, cwd=COQ, timeout=timeout)
     return {"coqchk_rc": rc, "coqchk_tail": out[-1500:], "coqchk_s": round(dt, 1)}
 
 
